@@ -56,6 +56,9 @@ fn ord_str(o: Ordering) -> &'static str {
 }
 
 fn gen_err(e: GeneratorError) -> String {
+    // the size-too-large classification of the error type is part of the error contract (C12)
+    let big = matches!(e, GeneratorError::FixedSizeTooLarge | GeneratorError::InputSizeTooLarge);
+    if e.is_size_too_large_error() != big { return format!("INCONSISTENT(is_size_too_large_error:{:?})", e); }
     format!("ERR({:?})", e)
 }
 
@@ -126,6 +129,19 @@ fn run_prim(a: &[&str]) -> String {
 // bs
 // ---------------------------------------------------------------------------------------------
 
+/// every `Default` implementation yields the same object as `new()`
+fn defaults_are_new() -> bool {
+    let g = format!("{:?}", Generator::default()) == format!("{:?}", Generator::new());
+    let h = R::default().full_eq(&R::new()) && N::default().full_eq(&N::new())
+        && LR::default().full_eq(&LR::new()) && LN::default().full_eq(&LN::new())
+        && D::default() == D::new() && LD::default() == LD::new() && D::default().is_valid() && LD::default().is_valid();
+    let t = FuzzyHashCompareTarget::default().full_eq(&FuzzyHashCompareTarget::new());
+    let p = BlockHashPositionArray::default() == BlockHashPositionArray::new();
+    let r = RollingHash::default().value() == RollingHash::new().value()
+        && PartialFNVHash::default().value() == PartialFNVHash::new().value();
+    g && h && t && p && r
+}
+
 fn run_bs(a: &[&str]) -> String {
     match a {
         ["valid", x] => match nat(x) {
@@ -133,8 +149,18 @@ fn run_bs(a: &[&str]) -> String {
             _ => BAD.into(),
         },
         ["fromlog", x] => match nat(x) {
+            Some(n) if n <= 255 && block_size::is_log_valid(n as u8) != block_size::from_log(n as u8).is_some() => "INCONSISTENT(is_log_valid)".into(),
             Some(n) if n <= 255 => match block_size::from_log(n as u8) {
-                Some(v) => format!("{}", v),
+                Some(v) => {
+                    #[cfg(feature = "ff-unchecked")]
+                    #[allow(unsafe_code)]
+                    unsafe {
+                        if block_size::from_log_unchecked(n as u8) != v || block_size::log_from_valid_unchecked(v) != n as u8 {
+                            return "UNCHECKED-DISAGREE".into();
+                        }
+                    }
+                    format!("{}", v)
+                }
                 None => "none".into(),
             },
             _ => BAD.into(),
@@ -163,6 +189,19 @@ fn run_bs(a: &[&str]) -> String {
                     BlockSizeRelation::NearGt => "NearGt",
                     BlockSizeRelation::Far => "Far",
                 };
+                {
+                    // the same relations asked of hash objects
+                    let (hl, hr) = (N::new_from_internals_near_raw(l, &[1], &[2]), N::new_from_internals_near_raw(r, &[3], &[]));
+                    let same = N::compare_block_sizes(&hl, &hr) == block_size::compare_sizes(l, r)
+                        && N::is_block_sizes_near(&hl, &hr) == block_size::is_near(l, r)
+                        && N::is_block_sizes_near_eq(&hl, &hr) == block_size::is_near_eq(l, r)
+                        && N::is_block_sizes_near_lt(&hl, &hr) == block_size::is_near_lt(l, r)
+                        && N::is_block_sizes_near_gt(&hl, &hr) == block_size::is_near_gt(l, r)
+                        && hl.cmp_by_block_size(&hr) == block_size::cmp(l, r)
+                        && LR::compare_block_sizes(LR::from(hl.to_long_form()), LR::from(hr.to_long_form())) == block_size::compare_sizes(l, r);
+                    let same = same && block_size::compare_sizes(l, r).is_near() == block_size::is_near(l, r);
+                    if !same { return "INCONSISTENT(object block size relations)".into(); }
+                }
                 format!(
                     "{} {} {} {} {} {}",
                     b2s(block_size::is_near(l, r)),
@@ -180,19 +219,37 @@ fn run_bs(a: &[&str]) -> String {
                 match guarded(|| {
                     FuzzyHashCompareTarget::raw_score_by_edit_distance(l1 as u8, l2 as u8, d as u32)
                 }) {
-                    Some(s) => format!("{}", s),
+                    Some(s) => {
+                        #[cfg(feature = "ff-unchecked")]
+                        #[allow(unsafe_code)]
+                        unsafe {
+                            if FuzzyHashCompareTarget::raw_score_by_edit_distance_unchecked(l1 as u8, l2 as u8, d as u32) != s {
+                                return "UNCHECKED-DISAGREE".into();
+                            }
+                        }
+                        format!("{}", s)
+                    }
                     None => PANIC.into(),
                 }
             }
             _ => BAD.into(),
         },
         ["cap", n, l1, l2] => match (nat(n), nat(l1), nat(l2)) {
-            (Some(n), Some(l1), Some(l2)) if n < 256 && l1 < 256 && l2 < 256 => format!(
-                "{}",
-                FuzzyHashCompareTarget::score_cap_on_block_hash_comparison(n as u8, l1 as u8, l2 as u8)
-            ),
+            (Some(n), Some(l1), Some(l2)) if n < 256 && l1 < 256 && l2 < 256 => {
+                let c = match guarded(|| FuzzyHashCompareTarget::score_cap_on_block_hash_comparison(n as u8, l1 as u8, l2 as u8)) {
+                    Some(c) => c, None => return PANIC.into() };
+                #[cfg(feature = "ff-unchecked")]
+                #[allow(unsafe_code)]
+                unsafe {
+                    if FuzzyHashCompareTarget::score_cap_on_block_hash_comparison_unchecked(n as u8, l1 as u8, l2 as u8) != c {
+                        return "UNCHECKED-DISAGREE".into();
+                    }
+                }
+                format!("{}", c)
+            }
             _ => BAD.into(),
         },
+        ["const"] if !defaults_are_new() => "INCONSISTENT(Default != new)".into(),
         ["const"] => format!(
             "MIN={} NUM_VALID={} FULL={} HALF={} MAXSEQ={} MINLCS={} WINDOW={} MAXIN={} MINREC={} BORDER={} MAXLEN={} MAXLEN_S={} MAXLEN_L={} NWBITS={} IWBITS={}",
             block_size::MIN,
@@ -331,6 +388,30 @@ fn run_fmt(a: &[&str]) -> String {
                 };
                 let disp = format!("{}", h);
                 let mut routes = true;
+                // array views / lengths and the raw-array constructors give the same object
+                {
+                    let (a1, a2) = (h.block_hash_1_as_array(), h.block_hash_2_as_array());
+                    let (l1, l2) = (h.block_hash_1_len(), h.block_hash_2_len());
+                    routes &= l1 == h.block_hash_1().len() && l2 == h.block_hash_2().len()
+                        && &a1[..l1] == h.block_hash_1() && &a2[..l2] == h.block_hash_2()
+                        && a1[l1..].iter().all(|&x| x == 0) && a2[l2..].iter().all(|&x| x == 0);
+                    let c = T::new_from_internals_raw(k, a1, a2, l1 as u8, l2 as u8);
+                    let mut c2 = T::new_from_internals_near_raw(7, &[9, 8, 7, 6, 5, 4, 3, 2, 1], &[1, 2, 3]);
+                    c2.init_from_internals_raw(k, a1, a2, l1 as u8, l2 as u8);
+                    routes &= c.full_eq(&h) && c2.full_eq(&h);
+                    #[cfg(feature = "ff-unchecked")]
+                    #[allow(unsafe_code)]
+                    unsafe {
+                        let u1 = T::new_from_internals_near_raw_unchecked(k, &b1, &b2);
+                        let u2 = T::new_from_internals_unchecked(block_size::from_log(k).unwrap(), &b1, &b2);
+                        let u3 = T::new_from_internals_raw_unchecked(k, a1, a2, l1 as u8, l2 as u8);
+                        let mut u4 = T::new_from_internals_near_raw(7, &[9, 8, 7, 6, 5, 4, 3, 2, 1], &[1, 2, 3]);
+                        u4.init_from_internals_raw_unchecked(k, a1, a2, l1 as u8, l2 as u8);
+                        if !(u1.full_eq(&h) && u2.full_eq(&h) && u3.full_eq(&h) && u4.full_eq(&h)) {
+                            return "UNCHECKED-DISAGREE".into();
+                        }
+                    }
+                }
                 #[cfg(feature = "ff-default")]
                 {
                     let ts = h.to_string();
@@ -650,6 +731,15 @@ fn opt_bool(x: Option<bool>) -> String {
 
 fn run_pa(a: &[&str]) -> String {
     match a {
+        ["hs", x, len] => {
+            use ssdeep::internal_comparison::block_hash_position_array_element as el;
+            let (x, len) = match (nat(x), nat(len)) { (Some(x), Some(l)) if l <= u32::MAX as u64 => (x, l as u32), _ => return BAD.into() };
+            let r = el::has_sequences(x, len);
+            macro_rules! c { ($($n:literal),*) => { match len { $($n => Some(el::has_sequences_const::<$n>(x)),)* _ => None } } }
+            let rc = c!(0, 1, 2, 3, 4, 5, 6, 7, 8, 9, 15, 16, 17, 31, 32, 33, 62, 63, 64, 65);
+            if let Some(rc) = rc { if rc != r { return format!("DISAGREE(const:{},dyn:{})", rc, r); } }
+            b2s(r).into()
+        }
         [op, x, y] if *op == "ed" || *op == "cs" => {
             let (x, y) = match (hexdec(x), hexdec(y)) { (Some(x), Some(y)) => (x, y), _ => return BAD.into() };
             let mut pa = BlockHashPositionArray::new();
@@ -666,6 +756,23 @@ fn run_pa(a: &[&str]) -> String {
             } else {
                 None
             };
+            // unchecked position-array entry points under their contracts (C14)
+            #[cfg(feature = "ff-unchecked")]
+            #[allow(unsafe_code)]
+            {
+                use ssdeep::internal_comparison::BlockHashPositionArrayImplUnchecked;
+                if pa.is_valid() && y.len() <= 64 && y.iter().all(|&c| c < 64) {
+                    let bad = unsafe {
+                        pa.edit_distance_unchecked(&y) != pa.edit_distance(&y)
+                            || pa.has_common_substring_unchecked(&y) != pa.has_common_substring(&y)
+                            || pa.is_equiv_unchecked(&y) != pa.is_equiv(&y)
+                            || (pa.is_valid_and_normalized() && is_norm_syms(&y) && (
+                                pa.score_strings_raw_unchecked(&y) != pa.score_strings_raw(&y)
+                                || (0..=31u8).any(|n| pa.score_strings_unchecked(&y, n) != pa.score_strings(&y, n))))
+                    };
+                    if bad { return "UNCHECKED-DISAGREE".into(); }
+                }
+            }
             if *op == "ed" {
                 let r = guarded(|| pa.edit_distance(&y));
                 if let Some(t) = &tgt {
@@ -840,8 +947,34 @@ fn run_cmp(a: &[&str]) -> String {
                     }
                     BlockSizeRelation::Far => {}
                 }
+                // the unchecked entry points under their documented contracts (C14)
+                #[cfg(feature = "ff-unchecked")]
+                #[allow(unsafe_code)]
+                unsafe {
+                    scores.push(x.compare_unequal_unchecked(&y));
+                    scores.push(tx.compare_unequal_unchecked(&y));
+                    match block_size::compare_sizes(k1, k2) {
+                        BlockSizeRelation::NearEq => {
+                            scores.push(tx.compare_unequal_near_eq_unchecked(&y));
+                            scores.push(tx.compare_near_eq_unchecked(&y));
+                            cands.push(tx.is_comparison_candidate_near_eq_unchecked(&y));
+                        }
+                        BlockSizeRelation::NearLt => {
+                            scores.push(tx.compare_unequal_near_lt_unchecked(&y));
+                            cands.push(tx.is_comparison_candidate_near_lt_unchecked(&y));
+                        }
+                        BlockSizeRelation::NearGt => {
+                            scores.push(tx.compare_unequal_near_gt_unchecked(&y));
+                            cands.push(tx.is_comparison_candidate_near_gt_unchecked(&y));
+                        }
+                        BlockSizeRelation::Far => {}
+                    }
+                }
             } else {
                 scores.push(tx.compare_near_eq(&y));
+                #[cfg(feature = "ff-unchecked")]
+                #[allow(unsafe_code)]
+                unsafe { scores.push(tx.compare_near_eq_unchecked(&y)); }
             }
             // short operands when both fit
             if a2.len() <= 32 && b2.len() <= 32 {
@@ -1322,9 +1455,18 @@ fn store_op(st: &mut Store, tok: &str) -> String {
             "N>R!" => { st.n.into_mut_raw_form(&mut st.r); fh_st!("R", st.r) }
             "LN>LR" => { st.lr = LR::from(st.ln); fh_st!("LR", st.lr) }
             "LN>LR!" => { st.ln.into_mut_raw_form(&mut st.lr); fh_st!("LR", st.lr) }
-            "R>LR" => { st.lr = st.r.to_long_form(); fh_st!("LR", st.lr) }
+            "R>LR" => {
+                st.lr = st.r.to_long_form();
+                // the named constructor and the trait conversion are the same edge
+                if !(LR::from_short_form(&st.r).full_eq(&st.lr) && LR::from(st.r).full_eq(&st.lr)) { return "DISAGREE(from_short_form)".into(); }
+                fh_st!("LR", st.lr)
+            }
             "R>LR!" => { st.r.into_mut_long_form(&mut st.lr); fh_st!("LR", st.lr) }
-            "N>LN" => { st.ln = LN::from(st.n); fh_st!("LN", st.ln) }
+            "N>LN" => {
+                st.ln = LN::from(st.n);
+                if !(LN::from_short_form(&st.n).full_eq(&st.ln) && st.n.to_long_form().full_eq(&st.ln)) { return "DISAGREE(from_short_form)".into(); }
+                fh_st!("LN", st.ln)
+            }
             "N>LN!" => { st.n.into_mut_long_form(&mut st.ln); fh_st!("LN", st.ln) }
             "N>LR" => { st.lr = LR::from(st.n); fh_st!("LR", st.lr) }
             "LR>R?" => match R::try_from(st.lr) {
